@@ -194,6 +194,16 @@ impl Analyzed {
     }
 }
 
+impl Analyzed {
+    /// Run a checked plain computation root (no Builtin package parameter).
+    pub fn run_plain(&self, fuel: u64) -> Option<RunResult> {
+        let analysis = self.analysis()?;
+        let checked = catch(|| self.session.checked_program(analysis)).ok()??;
+        let zydeco_statics::syntax::TermAnnId::Compu(root, _) = checked.root else { return None };
+        Some(run_plain_root(checked.scoped, checked.statics, root, fuel))
+    }
+}
+
 /* ------------------------------------------------------------------------------------------ */
 /* Interpreter step monitor                                                                    */
 /* ------------------------------------------------------------------------------------------ */
